@@ -95,12 +95,12 @@ def maskSpec (key : Bytes) (b : Bytes) : Bytes :=
 /-! ### send side -/
 
 inductive Err | closed | tooLong | invalidFragment | tooLarge | controlTooBig | reserveBit | reservedType
-              | controlFragmented | fragWithType | consumed | panic | inflate | stuck
+              | controlFragmented | fragWithType | consumed | panic | inflate | stuck | http
   deriving Repr, DecidableEq
 def Err.code : Err → Nat
   | .closed => 1 | .tooLong => 2 | .invalidFragment => 3 | .tooLarge => 4 | .controlTooBig => 5
   | .reserveBit => 6 | .reservedType => 7 | .controlFragmented => 8 | .fragWithType => 9 | .consumed => 10
-  | .panic => 11 | .inflate => 12 | .stuck => 99
+  | .panic => 11 | .inflate => 12 | .stuck => 99 | .http => 13
 
 /-- `writeFrame`: the bytes of one frame -/
 def encodeFrame (isClient : Bool) (key : Bytes) (opcode : Nat) (sendOpcode fin : Bool) (data : Bytes) (rsv1 : Bool) : Bytes :=
